@@ -443,6 +443,18 @@ example : (runCached (keyAfter id exDecl) (fun _ => ()) (runCached (keyBefore id
     = runPlain (fun _ => ()) ((consolidate true exFiles).dimGets ++ [readReq exFileB "t".toList [(0, 1, 1)], readReq exFileB "t".toList [(0, 1, 0)]]) :=
   C18_consolidated_transparent id (fun _ _ h => h) exFiles exDecl exFiles_result _ _ (fun _ _ _ _ _ => rfl)
     (fun _ _ _ _ _ _ _ _ _ _ _ _ _ _ _ => rfl)
+/-- the scenario of an empty first file: `t` of size 0 in the first file, then reads of element 0 of `t` from two other
+    files never share an entry (`C18_consolidated_reads_share`: the only declared dimension has n = 0) -/
+example (hk : keyAfter id ⟨exDecl.base, [declText "t".toList 0]⟩ (readReq exFileA "t".toList [(0, 1, 0)]) =
+    keyAfter id ⟨exDecl.base, [declText "t".toList 0]⟩ (readReq exFileB "t".toList [(0, 1, 0)])) : False := by
+  rcases C18_consolidated_reads_share id (fun _ _ h => h) [exFileZ, exFileB] _ (by rfl) exFileA exFileB _ _ _ _
+    (by decide) (by decide) (by decide) hk with e | ⟨f0, rest, d, n, hf, hl, hn, _⟩
+  · revert e; decide
+  · cases hf
+    simp only [exFileZ, exFileA, List.lookup] at hl
+    split at hl
+    · cases hl; omega
+    · cases hl
 /-- the hypotheses of `C18_consolidated_base_contains` hold for the example collection -/
 example : ∀ g ∈ exFiles, ∃ r, g.path = '/' :: r := by
   intro g hg
